@@ -20,6 +20,7 @@ from modcorpus import *
 import c03_util as U
 import c02 as C02
 import ext_layer            # extensibility layer (lib/ext_layer.py, notes/design/EXT.md)
+import setdef_layer         # SET / DEFAULT layer (lib/setdef_layer.py, notes/design/SetDef.md)
 import c03_tagmap as TM
 import c03_oerpos as P
 import c03_regions as RG
@@ -432,6 +433,7 @@ def main(tier):
     ext_layer.build, ext_layer.model_encode = build_cap, encode_cap
     try:
         ext_layer.run_c03(run, rng, tier)
+        setdef_layer.run_c03(run, rng, tier)
     finally:
         ext_layer.build, ext_layer.model_encode = orig_build, orig_encode
     t0 = time.time()
